@@ -1,5 +1,6 @@
 import YtkModel.Wire
 import YtkModel.DocSet
+import YtkModel.DocSetFilesWire
 open Lean
 
 namespace Ytk.C18
@@ -64,6 +65,7 @@ def handle : Wire.Handler := fun op a => do
       ("genNames", Wire.strs (genNames DocSet.init ops))])
   | "unique" =>
     pure (Wire.strs (unique (← Wire.getStrs a "xs")))
+  | "files" => DocSetFiles.handleWire optOfJson opOfJson observe a
   | _ => throw s!"C18: unknown op {op}"
 
 end Ytk.C18
